@@ -65,18 +65,18 @@ Proof.
 Qed.
 
 Theorem ei_sound fs e :
-  long_repeat (map (std_frame P) fs) = false -> plain_exc e = true ->
+  plain_exc e = true ->
   ei_verdict fs e (std_text (std_tb P fs e)) (model_ei fs e) = (true, true, false).
 Proof.
-  intros Hr He. pose proof (plain_exc_tb P fs e He) as ET.
-  pose proof (format_partial P fs e Hr He) as FMT. unfold ei_text in FMT.
+  intros He. pose proof (plain_exc_tb P fs e He) as ET.
+  pose proof (format_partial P fs e He) as FMT. unfold ei_text in FMT.
   assert (Emsg : ei_msg e = std_msg e) by (apply (f_equal t_msg) in ET; exact ET).
   assert (Hhint : hint_of e = Some []).
   { unfold plain_exc in He. unfold hint_of, std_base_msg. destruct (ex_str e); [|discriminate]. rewrite He. reflexivity. }
   assert (Hshown : str_eqb (ex_shown e) (exc_text (std_type e) (std_msg e)) = true).
   { unfold plain_exc in He. unfold std_msg, std_base_msg. rewrite Hhint, app_nil_r. destruct (ex_str e); [exact He|discriminate]. }
   unfold ei_verdict. cbn [std_tb t_frames t_type t_msg].
-  rewrite Hr, He, Hhint, Hshown, str_eqb_refl. cbn [is_some andb orb negb].
+  rewrite He, Hhint, Hshown, str_eqb_refl. cbn [is_some andb orb negb].
   rewrite ei_obs_eqb_refl.
   (* the clauses *)
   assert (CL : ei_clauses fs e (model_ei fs e) (std_tb P fs e) (std_text (std_tb P fs e)) = true).
@@ -91,7 +91,8 @@ Proof.
   rewrite CL. cbn [andb orb].
   (* reparse *)
   destruct (wf P (std_tb P fs e)) eqn:W; cbn [negb orb]; [|reflexivity].
+  destruct (long_repeat (map (std_frame P) fs)) eqn:Hr; cbn [orb]; [reflexivity|].
   unfold model_ei. cbn [eo_more].
-  pose proof (format_reparse P py_cc_ok fs e) as RP. rewrite ET in RP.
-  specialize (RP W). unfold ei_text in RP. rewrite RP, rtb_eqb_refl. reflexivity.
+  pose proof (format_reparse_partial P py_cc_ok fs e) as RP. rewrite ET in RP.
+  specialize (RP W Hr). unfold ei_text in RP. rewrite RP, rtb_eqb_refl. reflexivity.
 Qed.
